@@ -280,6 +280,9 @@ def run(ctx: Ctx, lanes: tuple[str, ...] = ("frames", "daemon")) -> Result:
         "Linux AF_UNIX transport only (the win32 named-pipe branches of mypy/ipc.py are not executed)",
         "source mtimes are owned by the harness (every edit gets a fresh deterministic mtime)",
         "one client at a time (the serve loop is sequential; concurrent clients are out of scope)",
+        "clients that wait for a reply half-close (SHUT_WR) after sending their complete request, so that a daemon "
+        "waiting for bytes that will never come sees EOF instead of dead-locking with the harness (the real dmypy "
+        "client would hang there); a daemon that reads the frame it was sent is unaffected",
         "the forked daemon counts accepted connections via a wrapper around IPCServer.__enter__ installed in the "
         "harness child only (pure observation, used to attribute an exit to the client step being served)",
     ], harness_errors=herr)
